@@ -22,7 +22,7 @@ PROP = "C18"
 TIERS = {"quick": 32000, "thorough": 1600000}
 BATCH = 250
 RULE = ("one evaluation = one generated history (2-3 client sessions, up to 36 ops: align / reset / open a kbest_matches generator with "
-        "k, minlen, buffer (<0, 0, >0), restart / next / abandon / kbest_matches_store(keep) / best_match / wp_slice / matrix comparison of the "
+        "k, minlen, buffer (<0, 0, >0), restart / next / abandon / kbest_matches_store(keep) / best_match / wp_slice / late re-read of matches handed out earlier / matrix comparison of the "
         "Python, C-full and C-compact engines) on one shared LocalConcurrences object. Distinct = distinct (op kind, session) sequences; "
         "non-trivial = at least two sessions alternate at least twice.")
 COMPONENTS = {"real": ["subsequence/localconcurrences.py (LocalConcurrences, LCMatch, LCMatches, kbest_matches generator, best_path)",
@@ -126,7 +126,7 @@ def gen_history(st):
             elif k < 19:
                 programs[s].append({"op": "wp_slice"})
             else:
-                programs[s].append({"op": "best_match"})
+                programs[s].append({"op": "best_match"} if rng.below(2) else {"op": "reread", "which": rng.below(64)})
     if rng.below(3) == 0:
         # one history in three searches with buffer 0 and minlen 1 only: then nothing but the yielded paths consumes cells, and
         # "traced from a maximum" / "stops only when no positive cell is left" can be judged exactly
@@ -348,6 +348,7 @@ def execute(history):
         # path shape, end cell, minlen, no reuse since the last reset, restart => as on a fresh object.
         bump("c_variant_history_without_magnitudes:known_matrix_finding")
         magnitudes = False
+    handed = []          # (op index, match object, its path as read when it was handed out)
     U = set()
     impure = [False]     # since U was last cleared: has any search with buffer != 0 or minlen > 1 run (such searches consume cells no caller sees)?
     streams = {}
@@ -437,6 +438,7 @@ def execute(history):
                     bump("op:next")
                     path = m.path
                     obs.append([opi, int(m.row), int(m.col), [list(map(int, t)) for t in path]])
+                    handed.append((opi, m, [list(map(int, t)) for t in path]))
                     v = check_path(path, (int(m.row), int(m.col)), M if magnitudes else None, U, spec["minlen"], "match %d of a kbest_matches(k=%s, minlen=%s, buffer=%s, restart=%s) stream" %
                                    (st["n"], spec["k"], spec["minlen"], spec["buffer"], spec["restart"]), shape=(len(M) - 1, len(M[0]) - 1))
                     add(v, opi)
@@ -467,6 +469,7 @@ def execute(history):
                         n += 1
                         path = m.path
                         obs.append([opi, int(m.row), int(m.col), [list(map(int, t)) for t in path]])
+                        handed.append((opi, m, [list(map(int, t)) for t in path]))
                         v = check_path(path, (int(m.row), int(m.col)), M if magnitudes else None, U, op["minlen"], "match %d of kbest_matches_store(k=%s, buffer=%s, restart=%s, keep=%s)" %
                                        (n, op["k"], op["buffer"], op["restart"], op["keep"]), shape=(len(M) - 1, len(M[0]) - 1))
                         add(v, opi)
@@ -492,6 +495,17 @@ def execute(history):
                         U = set(); impure[0] = False
                     for st2 in streams.values():
                         st2["pure"] = False
+                elif kind == "reread":
+                    # a match handed out earlier is a result: reading it again later (after other searches, restarts, a reset
+                    # and a new alignment) must show the path it showed then
+                    if not handed:
+                        continue
+                    opj, m_old, p_old = handed[op["which"] % len(handed)]
+                    bump("op:reread")
+                    p_now = [list(map(int, t)) for t in m_old.path]
+                    if p_now != p_old:
+                        add({"class": "match-changed", "detail": "the match handed out by op %d showed path %r then, %r when read again now" % (opj, p_old[:6], p_now[:6])}, opi)
+                    del handed[:-24]
                 elif kind == "best_match":
                     if lc._wp is None or setup["variant"] == "c_compact" or not magnitudes:
                         continue
